@@ -72,7 +72,7 @@ func (h c11CachedHist) QueryRow(v any, q string, args ...any) error {
 }
 
 func TestVerif_C11_histcached(t *testing.T) {
-	kit.Run(t, "C11", "hist-cached", kit.Opts{Quick: 1000, Thorough: 48000}, sqlx.VerifC11GenHist,
+	kit.Run(t, "C11", "hist-cached", kit.Opts{Quick: 1000, Thorough: 32000}, sqlx.VerifC11GenHist,
 		func(c sqlx.C11HistCase) kit.Verdict {
 			return sqlx.VerifC11InterpHist(t, c, func(db *sql.DB) sqlx.C11HistConn {
 				return c11CachedHist{sqlc.NewConnWithCache(sqlx.NewConnFromDB(db), nil)}
